@@ -24,9 +24,8 @@ Full == {[ver |-> v, shift |-> sh, method |-> m, enc |-> en, crc |-> cr, attrs |
            lf \in BOOLEAN, tc \in BOOLEAN}
 
 Diff(c) == Cardinality({d \in {"method", "enc", "crc", "attrs", "listfile", "tablecomp"} : c[d] # Base[d]})
-\* quick: every version x shift in {0,3,8} x (base or one other dimension changed)  -- a 3-way slice through
-\* (version, shift, one more dimension)
-InQuick(c) == c.shift \in {0, 3, 8} /\ Diff(c) <= 1
+\* quick: shift in {0,3,8} x (base configuration for every version; one other dimension changed for V1 and V4)
+InQuick(c) == c.shift \in {0, 3, 8} /\ Diff(c) <= 1 /\ (c.ver \in {1, 4} \/ Diff(c) = 0)
 \* thorough: every (version, shift, method, enc) with the four boolean-ish dimensions rotated through
 \* their 24 combinations, twice
 Opt4 == SetToSeq({<<cr, at, lf, tc>> : cr \in BOOLEAN, at \in Attrs, lf \in BOOLEAN, tc \in BOOLEAN})
@@ -39,7 +38,8 @@ ThoroughSet == {[ver |-> Core[j][1], shift |-> Core[j][2], method |-> Core[j][3]
 FullSeq == SetToSeq(Full)
 Draws(n) == {FullSeq[((((SeedN % 10007) * 7919) + (j * 104729)) % Len(FullSeq)) + 1] : j \in 1..n}
 
-CaseSet == IF Thorough THEN ThoroughSet \cup {c \in Full : InQuick(c)} \cup Draws(100)
+InQuickAllVersions(c) == c.shift \in {0, 3, 8} /\ Diff(c) <= 1
+CaseSet == IF Thorough THEN ThoroughSet \cup {c \in Full : InQuickAllVersions(c)} \cup Draws(100)
            ELSE {c \in Full : InQuick(c)} \cup Draws(24)
 Cases == SetToSeq(CaseSet)
 ASSUME CaseSet \subseteq Full
